@@ -539,6 +539,11 @@ func (c *FailoverController) executeFailover(reason string, timerGen uint64) {
 			)
 			c.mu.Lock()
 			c.state = FailoverStateNormal
+			// No further partner_down will come for a partner that is already down:
+			// try again after the failover delay.
+			if !c.healthMonitor.IsPartnerHealthy() {
+				c.scheduleFailoverLocked()
+			}
 			c.mu.Unlock()
 			return
 		}
@@ -659,7 +664,15 @@ func (c *FailoverController) executeFailback(reason string, timerGen uint64) {
 				zap.Error(err),
 			)
 			c.mu.Lock()
-			c.state = FailoverStateComplete
+			// Leave a state that changed while the callback ran alone (the failback was
+			// cancelled or re-armed); otherwise retry after the failback delay while the
+			// partner stays healthy, since no further partner_up will come.
+			if c.state == FailoverStateFailbackPending && timerGen == c.timerGen {
+				c.state = FailoverStateComplete
+				if c.healthMonitor.IsPartnerHealthy() {
+					c.scheduleFailbackLocked()
+				}
+			}
 			c.mu.Unlock()
 			return
 		}
